@@ -59,6 +59,7 @@ type Result struct {
 
 // Run is the context handed to a check.
 type Run struct {
+	journal string
 	Result
 	known    map[string]bool
 	states   map[uint64]struct{}
@@ -279,6 +280,10 @@ func MainArgs(args []string, checks map[string]Check) {
 		os.Exit(2)
 	}
 	r.Property = *prop
+	if *out != "" {
+		r.journal = *out + ".journal"
+		_ = os.Remove(r.journal)
+	}
 	code := 0
 	func() {
 		defer func() {
@@ -307,6 +312,9 @@ func MainArgs(args []string, checks map[string]Check) {
 		fmt.Fprintln(os.Stderr, "write result:", err)
 		os.Exit(2)
 	}
+	if r.journal != "" {
+		_ = os.Remove(r.journal)
+	}
 	if code == 0 && r.NViolations > 0 {
 		code = 1
 	}
@@ -330,6 +338,22 @@ func J(x any) string {
 		return fmt.Sprintf("%+v", x)
 	}
 	return string(b)
+}
+
+// Journal notes the case about to be executed in <out>.journal, so that the driver can name the input
+// when the worker is killed by a fatal runtime error (stack exhaustion, out of memory, runtime throw)
+// that recover() cannot intercept.
+func (r *Run) Journal(check string, input any) {
+	if r.journal == "" {
+		return
+	}
+	raw, err := json.Marshal(input)
+	if err != nil {
+		return
+	}
+	v := Violation{Property: r.Property, Check: check, Input: raw, Explanation: "worker died while executing this case"}
+	data, _ := json.Marshal(v)
+	_ = os.WriteFile(r.journal, data, 0o644)
 }
 
 // GlobalState records a state that every shard meets (counted once, by shard 0).
